@@ -1145,16 +1145,24 @@ def check_noeffect_errno(chk, work):
 
 def common(chk, want):
     """shared driver of C11 (want='pts') and C12 (want='calls')"""
+    import time
+    t0 = time.time()
+    phase = {}
     prop_v = "theories/Properties/%s.v" % chk.prop
     failed = chk.prove(prop_v)
+    phase["coq"] = round(time.time() - t0, 1)
     model_ok = True
     try:
         vlib.build_model("c11")
     except vlib.BuildError as e:
         model_ok = False
         chk.notes.append("extracted model could not be built: " + e.what)
+    phase["extract_build"] = round(time.time() - t0 - phase["coq"], 1)
     work = os.path.join(vlib.BUILD, "c11")
+    t1 = time.time()
     progs = prepare(work, chk.seed, chk.tier)
+    phase["harness_native_dump"] = round(time.time() - t1, 1)
+    t1 = time.time()
     found_concrete = False
     tie_bad = []
     dist = {}
@@ -1280,6 +1288,15 @@ def common(chk, want):
         chk.notes.append("tie also broken on %d program(s): %s" % (len(tie_bad), str(tie_bad[0][2][:2])[:400]))
     chk.proof_broken(failed, found_concrete)
     dist["programs"] = len(progs)
+    phase["checks_model_ties"] = round(time.time() - t1, 1)
+    dist["phase_seconds"] = phase
+    chk.cov["trusted_base"] += [
+        "muSSA small-step semantics (Lang/MuSSA.v) as a stand-in for Go/x-tools-SSA semantics: validated (semval_* counters), not proved",
+        "ssa2mu translator (harness/cmd/c11dump/mu.go) and the marker/probe instrumentation of the generated programs",
+        "x/tools SSA construction, go/packages loading, fmt's %p and the Go runtime (GC switched off) for the native ground truth",
+        "PositiveMap (Coq stdlib FMapPositive) extracted with ExtrOcamlBasic; extraction accesses the opaque "
+        "PositiveOrderedTypeBits.compare/eq_dec bodies (warning only)",
+    ]
     chk.cov["evaluations"] = evals
     chk.cov["distinct_nontrivial"] = len(distinct)
     chk.cov["traces_validated_against_impl"] = validated
